@@ -17,8 +17,8 @@ EXTENDS Integers, Sequences, FiniteSets, TLC, Json, IOUtils
 CONSTANT Check
 Trace == ndJsonDeserialize(IOEnv.TRACE_FILE)
 
-VARIABLES i, tr, log, hr, he, tl, cb, cov, stor, crashed
-vars == <<i, tr, log, hr, he, tl, cb, cov, stor, crashed>>
+VARIABLES i, tr, log, hr, he, tl, cb, cov, stor, crashed, offered
+vars == <<i, tr, log, hr, he, tl, cb, cov, stor, crashed, offered>>
 
 Ev == Trace[i]
 IsC(k) == k \in {"M", "O", "A"}
@@ -26,6 +26,9 @@ IsC(k) == k \in {"M", "O", "A"}
 Deliverable(k) == k # "A"
 IsQ(k) == k \in {"Q", "E"}
 IsCh(k) == k \in {"CM", "CO"}
+\* "CR": a channel update with a position but no count (read mark): outside the ordered sequence; when a channel
+\* difference carries it, it must be delivered
+IsCR(k) == k = "CR"
 CPos(n) == Cardinality({j \in 1..n : IsC(log[j])})
 QPos(n) == Cardinality({j \in 1..n : IsQ(log[j])})
 ChPos(n) == Cardinality({j \in 1..n : IsCh(log[j])})
@@ -33,15 +36,15 @@ Mx(a, b) == IF a > b THEN a ELSE b
 
 Init == /\ i = 1 /\ tr = -1 /\ log = <<>> /\ hr = {} /\ he = {} /\ tl = [c |-> FALSE, ch |-> FALSE]
         /\ cb = 0 /\ cov = [pts |-> 0, qts |-> 0, ch |-> 0] /\ stor = [pts |-> 0, qts |-> 0, seq |-> 0, ch |-> -1]
-        /\ crashed = FALSE
+        /\ crashed = FALSE /\ offered = {}
 
 Reset == /\ Ev.ev = "reset"
          /\ tr' = Ev.trace /\ log' = Ev.log /\ hr' = {} /\ he' = {} /\ tl' = [c |-> FALSE, ch |-> FALSE]
          /\ cb' = 0 /\ cov' = [pts |-> 0, qts |-> 0, ch |-> 0]
          /\ stor' = [pts |-> 0, qts |-> 0, seq |-> 0, ch |-> IF Ev.tracked0 THEN 0 ELSE -1]
-         /\ crashed' = FALSE
+         /\ crashed' = FALSE /\ offered' = {}
 
-Skip == /\ Ev.ev \in {"act", "post"} /\ UNCHANGED <<tr, log, hr, he, tl, cb, cov, stor, crashed>>
+Skip == /\ Ev.ev \in {"act", "post"} /\ UNCHANGED <<tr, log, hr, he, tl, cb, cov, stor, crashed, offered>>
 
 Covered(j) ==
   IF IsC(log[j]) THEN CPos(j) <= cov.pts \/ tl.c
@@ -54,12 +57,12 @@ Handler ==
   /\ LET ids == {Ev.ids[k] : k \in 1..Len(Ev.ids)} \ {0} IN
      /\ ids \subseteq 1..Len(log)
      /\ (Check = "C01") =>
-           /\ \A x \in ids : x \notin hr
+           /\ \A x \in ids : x \notin hr \/ IsCR(log[x])
            /\ Cardinality(ids) = Cardinality({k \in 1..Len(Ev.ids) : Ev.ids[k] # 0})
-           /\ (Ev.via = "push") => \A x \in ids : \A j \in 1..(x - 1) :
+           /\ (Ev.via = "push") => \A x \in {y \in ids : ~IsCR(log[y])} : \A j \in 1..(x - 1) :
                    (SameSeq(x, j) /\ Deliverable(log[j])) => (j \in hr \/ j \in ids \/ Covered(j))
      /\ hr' = hr \cup ids /\ he' = he \cup ids
-  /\ UNCHANGED <<tr, log, tl, cb, cov, stor, crashed>>
+  /\ UNCHANGED <<tr, log, tl, cb, cov, stor, crashed, offered>>
 
 PersistOK(s, base) ==
   \A j \in 1..Len(log) :
@@ -73,42 +76,44 @@ Store ==
          b2 == IF Ev.k = "ch" /\ stor.ch = -1 THEN Ev.v ELSE cb IN
      /\ (Check = "C03") => PersistOK(s2, b2)
      /\ stor' = s2 /\ cb' = b2
-  /\ UNCHANGED <<tr, log, hr, he, tl, cov, crashed>>
+  /\ UNCHANGED <<tr, log, hr, he, tl, cov, crashed, offered>>
 
 StoreState ==
   /\ Ev.ev = "ss"
   /\ LET s2 == [stor EXCEPT !.pts = Ev.pts, !.qts = Ev.qts, !.seq = Ev.seq] IN
      /\ (Check = "C03") => PersistOK(s2, cb)
      /\ stor' = s2
-  /\ UNCHANGED <<tr, log, hr, he, tl, cb, cov, crashed>>
+  /\ UNCHANGED <<tr, log, hr, he, tl, cb, cov, crashed, offered>>
 
 Diff ==
   /\ Ev.ev = "diff"
   /\ cov' = IF Ev.k = "c" THEN [cov EXCEPT !.pts = Mx(@, Ev.pts), !.qts = Mx(@, Ev.qts)]
             ELSE [cov EXCEPT !.ch = Mx(@, Ev.pts)]
+  /\ offered' = offered \cup (IF "cr" \in DOMAIN Ev THEN {Ev.cr[k] : k \in 1..Len(Ev.cr)} ELSE {})
   /\ UNCHANGED <<tr, log, hr, he, tl, cb, stor, crashed>>
 
 TooLong ==
   /\ Ev.ev = "tl"
   /\ tl' = [tl EXCEPT ![Ev.k] = TRUE]
-  /\ UNCHANGED <<tr, log, hr, he, cb, cov, stor, crashed>>
+  /\ UNCHANGED <<tr, log, hr, he, cb, cov, stor, crashed, offered>>
 
 Restart ==
   /\ Ev.ev = "restart"
   /\ hr' = {} /\ crashed' = TRUE
   /\ cov' = [pts |-> stor.pts, qts |-> stor.qts, ch |-> IF stor.ch = -1 THEN 0 ELSE stor.ch]
-  /\ UNCHANGED <<tr, log, he, tl, cb, stor>>
+  /\ UNCHANGED <<tr, log, he, tl, cb, stor, offered>>
 
 NoLoss(n, tracked) ==
   \A j \in 1..n :
      \/ j \in he \/ ~Deliverable(log[j])
+     \/ (IsCR(log[j]) /\ j \notin offered)
      \/ (IsCh(log[j]) /\ (~tracked \/ ChPos(j) <= cb \/ tl.ch))
      \/ (~IsCh(log[j]) /\ tl.c)
 
 Quiesced ==
   /\ Ev.ev = "quiesced"
   /\ ((Check = "C02" /\ ~crashed) \/ (Check = "C03" /\ crashed)) => NoLoss(Ev.produced, Ev.tracked)
-  /\ UNCHANGED <<tr, log, hr, he, tl, cb, cov, stor, crashed>>
+  /\ UNCHANGED <<tr, log, hr, he, tl, cb, cov, stor, crashed, offered>>
 
 Next == /\ i <= Len(Trace) /\ i' = i + 1
         /\ (Reset \/ Skip \/ Handler \/ Store \/ StoreState \/ Diff \/ TooLong \/ Restart \/ Quiesced)
